@@ -9,36 +9,53 @@ theorem subB_iff {A B : List Name} : subB A B = true ↔ A ⊆ B := by
 theorem disjB_iff {A B : List Name} : disjB A B = true ↔ ∀ u ∈ A, u ∉ B := by
   simp [disjB, List.all_eq_true]
 
+theorem raiseOKb_iff {K : ExcCtx} {i : Info} {ts : List Nat} : raiseOKb K i ts = true ↔ raiseOK K i ts := by
+  simp only [raiseOKb, raiseOK, List.all_eq_true, subB_iff]
+
 mutual
-theorem liveS_sound : ∀ (s : AStmt), liveS s = true → LiveS s
-  | .assign i x e, h => by simpa [liveS, LiveS, subB_iff] using h
-  | .expr i e, h => by simpa [liveS, LiveS, subB_iff] using h
-  | .pass i, h => by simpa [liveS, LiveS, subB_iff] using h
-  | .ret i e, h => by simpa [liveS, LiveS, subB_iff] using h
-  | .raise i t, _ => by simp [LiveS]
-  | .ifS i c t e, h => by
+theorem liveS_sound : ∀ (K : ExcCtx) (s : AStmt), liveS K s = true → LiveS K s
+  | K, .assign i x e, h => by simpa [liveS, LiveS, subB_iff, and_assoc] using h
+  | K, .expr i e, h => by simpa [liveS, LiveS, subB_iff, and_assoc] using h
+  | K, .pass i, h => by simpa [liveS, LiveS, subB_iff] using h
+  | K, .ret i e, h => by simpa [liveS, LiveS, subB_iff] using h
+  | K, .raise i t, h => by simpa [liveS, LiveS, subB_iff] using h
+  | K, .ifS i c t e, h => by
+      simp only [liveS, Bool.and_eq_true, subB_iff, raiseOKb_iff] at h
+      simp only [LiveS]
+      exact ⟨h.1.1.1.1.1.1, h.1.1.1.1.1.2, h.1.1.1.1.2, liveB_sound K t _ h.1.1.1.2, liveB_sound K e _ h.1.1.2, h.1.2, h.2⟩
+  | K, .whileS i c b, h => by
+      simp only [liveS, Bool.and_eq_true, subB_iff, raiseOKb_iff] at h
+      simp only [LiveS]
+      exact ⟨h.1.1.1.1.1, h.1.1.1.1.2, h.1.1.1.2, liveB_sound K b _ h.1.1.2, h.1.2, h.2⟩
+  | K, .forS i x it extra b, h => by
+      simp only [liveS, Bool.and_eq_true, subB_iff, raiseOKb_iff] at h
+      simp only [LiveS]
+      exact ⟨h.1.1.1.1.1.1, h.1.1.1.1.1.2, h.1.1.1.1.2, h.1.1.1.2, liveB_sound K b _ h.1.1.2, h.1.2, h.2⟩
+  | K, .withS i tag b, h => by
       simp only [liveS, Bool.and_eq_true, subB_iff] at h
       simp only [LiveS]
-      exact ⟨h.1.1.1.1, h.1.1.1.2, h.1.1.2, liveB_sound t _ h.1.2, liveB_sound e _ h.2⟩
-  | .whileS i c b, h => by
+      exact ⟨h.1, liveB_sound K b _ h.2⟩
+  | K, .tryS i b hs f, h => by
       simp only [liveS, Bool.and_eq_true, subB_iff] at h
       simp only [LiveS]
-      exact ⟨h.1.1.1, h.1.1.2, h.1.2, liveB_sound b _ h.2⟩
-  | .forS i x it extra b, h => by
-      simp only [liveS, Bool.and_eq_true, subB_iff] at h
-      simp only [LiveS]
-      exact ⟨h.1.1.1.1, h.1.1.1.2, h.1.1.2, h.1.2, liveB_sound b _ h.2⟩
-theorem liveB_sound : ∀ (b : List AStmt) (O : List Name), liveB b O = true → LiveB b O
-  | [], _, _ => by simp [LiveB]
-  | s :: r, O, h => by
+      exact ⟨liveB_sound K f _ h.1.1.1, liveH_sound _ hs _ h.1.1.2, liveB_sound _ b _ h.1.2, h.2⟩
+theorem liveB_sound : ∀ (K : ExcCtx) (b : List AStmt) (O : List Name), liveB K b O = true → LiveB K b O
+  | _, [], _, _ => by simp [LiveB]
+  | K, s :: r, O, h => by
       simp only [liveB, Bool.and_eq_true, subB_iff] at h
       simp only [LiveB]
-      exact ⟨liveS_sound s h.1.1, h.1.2, liveB_sound r O h.2⟩
+      exact ⟨liveS_sound K s h.1.1, h.1.2, liveB_sound K r O h.2⟩
+theorem liveH_sound : ∀ (K : ExcCtx) (hs : List (Nat × List AStmt)) (O : List Name), liveH K hs O = true → LiveH K hs O
+  | _, [], _, _ => by simp [LiveH]
+  | K, (t, b) :: r, O, h => by
+      simp only [liveH, Bool.and_eq_true] at h
+      simp only [LiveH]
+      exact ⟨liveB_sound K b O h.1, liveH_sound K r O h.2⟩
 end
 
 /-- The checker run on the real `LIVE_VARS_IN/OUT` is sound for `LiveConsistent`. -/
 theorem liveConsistent_sound (p : ABlock) (O : List Name) (h : liveConsistent p O = true) : LiveConsistent p O :=
-  liveB_sound p O h
+  liveB_sound ExcCtx.top p O h
 
 mutual
 theorem declS_sound : ∀ (s : AStmt), declS s = true → DeclS s
@@ -59,12 +76,26 @@ theorem declS_sound : ∀ (s : AStmt), declS s = true → DeclS s
       simp only [declS, Bool.and_eq_true, subB_iff] at h
       simp only [DeclS]
       exact ⟨h.1.1, h.1.2, declB_sound b h.2⟩
+  | .withS i tag b, h => by
+      simp only [declS] at h
+      simp only [DeclS]
+      exact declB_sound b h
+  | .tryS i b hs f, h => by
+      simp only [declS, Bool.and_eq_true] at h
+      simp only [DeclS]
+      exact ⟨declB_sound b h.1.1, declH_sound hs h.1.2, declB_sound f h.2⟩
 theorem declB_sound : ∀ (b : List AStmt), declB b = true → DeclB b
   | [], _ => by simp [DeclB]
   | s :: r, h => by
       simp only [declB, Bool.and_eq_true] at h
       simp only [DeclB]
       exact ⟨declS_sound s h.1, declB_sound r h.2⟩
+theorem declH_sound : ∀ (hs : List (Nat × List AStmt)), declH hs = true → DeclH hs
+  | [], _ => by simp [DeclH]
+  | (t, b) :: r, h => by
+      simp only [declH, Bool.and_eq_true] at h
+      simp only [DeclH]
+      exact ⟨declB_sound b h.1, declH_sound r h.2⟩
 end
 
 mutual
@@ -86,12 +117,26 @@ theorem defS_sound : ∀ (D : List Name) (s : AStmt), defS D s = true → DefS D
       simp only [defS, Bool.and_eq_true, subB_iff, disjB_iff] at h
       simp only [DefS]
       exact ⟨h.1.1, h.1.2, defB_sound _ b h.2⟩
+  | D, .withS i tag b, h => by
+      simp only [defS] at h
+      simp only [DefS]
+      exact defB_sound D b h
+  | D, .tryS i b hs f, h => by
+      simp only [defS, Bool.and_eq_true] at h
+      simp only [DefS]
+      exact ⟨defB_sound D b h.1.1, defH_sound _ hs h.1.2, defB_sound _ f h.2⟩
 theorem defB_sound : ∀ (D : List Name) (b : List AStmt), defB D b = true → DefB D b
   | _, [], _ => by simp [DefB]
   | D, s :: r, h => by
       simp only [defB, Bool.and_eq_true] at h
       simp only [DefB]
       exact ⟨defS_sound D s h.1, defB_sound _ r h.2⟩
+theorem defH_sound : ∀ (D : List Name) (hs : List (Nat × List AStmt)), defH D hs = true → DefH D hs
+  | _, [], _ => by simp [DefH]
+  | D, (t, b) :: r, h => by
+      simp only [defH, Bool.and_eq_true] at h
+      simp only [DefH]
+      exact ⟨defB_sound D b h.1, defH_sound D r h.2⟩
 end
 
 theorem funcHyp_sound (D : List Name) (p : ABlock) (O : List Name) (h : funcHyp D p O = true) : FuncHyp D p O := by
@@ -104,29 +149,41 @@ theorem subB_contains {A B : List Name} (h : A ⊆ B) {x : Name} (hx : A.contain
   simpa using h this
 
 mutual
-theorem live_not_zeroTripS : ∀ (s : AStmt), LiveS s → forTargetZeroTripS s = false
-  | .assign .., _ => rfl
-  | .expr .., _ => rfl
-  | .pass .., _ => rfl
-  | .ret .., _ => rfl
-  | .raise .., _ => rfl
-  | .ifS i c t e, h => by
+theorem live_not_zeroTripS : ∀ (K : ExcCtx) (s : AStmt), LiveS K s → forTargetZeroTripS s = false
+  | _, .assign .., _ => rfl
+  | _, .expr .., _ => rfl
+  | _, .pass .., _ => rfl
+  | _, .ret .., _ => rfl
+  | _, .raise .., _ => rfl
+  | K, .ifS i c t e, h => by
       simp only [LiveS] at h
-      simp [forTargetZeroTripS, live_not_zeroTripB t _ h.2.2.2.1, live_not_zeroTripB e _ h.2.2.2.2]
-  | .whileS i c b, h => by
+      simp [forTargetZeroTripS, live_not_zeroTripB K t _ h.2.2.2.1, live_not_zeroTripB K e _ h.2.2.2.2.1]
+  | K, .whileS i c b, h => by
       simp only [LiveS] at h
-      simp [forTargetZeroTripS, live_not_zeroTripB b _ h.2.2.2]
-  | .forS i x it extra b, h => by
+      simp [forTargetZeroTripS, live_not_zeroTripB K b _ h.2.2.2.1]
+  | K, .forS i x it extra b, h => by
       simp only [LiveS] at h
-      simp only [forTargetZeroTripS, live_not_zeroTripB b _ h.2.2.2.2, Bool.or_false]
+      simp only [forTargetZeroTripS, live_not_zeroTripB K b _ h.2.2.2.2.1, Bool.or_false]
       cases hc : i.liveOut.contains x with
       | false => rfl
       | true => simp; exact h.2.2.1 (by simpa using hc)
-theorem live_not_zeroTripB : ∀ (b : List AStmt) (O : List Name), LiveB b O → forTargetZeroTripB b = false
-  | [], _, _ => rfl
-  | s :: r, O, h => by
+  | K, .withS i tag b, h => by
+      simp only [LiveS] at h
+      simp [forTargetZeroTripS, live_not_zeroTripB K b _ h.2]
+  | K, .tryS i b hs f, h => by
+      simp only [LiveS] at h
+      simp [forTargetZeroTripS, live_not_zeroTripB _ b _ h.2.2.1, live_not_zeroTripH _ hs _ h.2.1, live_not_zeroTripB K f _ h.1]
+theorem live_not_zeroTripB : ∀ (K : ExcCtx) (b : List AStmt) (O : List Name), LiveB K b O → forTargetZeroTripB b = false
+  | _, [], _, _ => rfl
+  | K, s :: r, O, h => by
       simp only [LiveB] at h
-      simp [forTargetZeroTripB, live_not_zeroTripS s h.1, live_not_zeroTripB r O h.2.2]
+      simp [forTargetZeroTripB, live_not_zeroTripS K s h.1, live_not_zeroTripB K r O h.2.2]
+theorem live_not_zeroTripH : ∀ (K : ExcCtx) (hs : List (Nat × List AStmt)) (O : List Name), LiveH K hs O →
+    forTargetZeroTripH hs = false
+  | _, [], _, _ => rfl
+  | K, (t, b) :: r, O, h => by
+      simp only [LiveH] at h
+      simp [forTargetZeroTripH, live_not_zeroTripB K b O h.1, live_not_zeroTripH K r O h.2]
 end
 
 theorem nodupB_sound : ∀ (l : List Name), nodupB l = true → l.Nodup
@@ -156,12 +213,26 @@ theorem hypFS_sound : ∀ (s : AStmt), hypFS s = true → HypFS s
       simp only [hypFS, Bool.and_eq_true, subB_iff] at h
       simp only [HypFS]
       exact ⟨h.1, hypFB_sound b h.2⟩
+  | .withS i tag b, h => by
+      simp only [hypFS] at h
+      simp only [HypFS]
+      exact hypFB_sound b h
+  | .tryS i b hs f, h => by
+      simp only [hypFS, Bool.and_eq_true] at h
+      simp only [HypFS]
+      exact ⟨hypFB_sound b h.1.1, hypFH_sound hs h.1.2, hypFB_sound f h.2⟩
 theorem hypFB_sound : ∀ (b : List AStmt), hypFB b = true → HypFB b
   | [], _ => by simp [HypFB]
   | s :: r, h => by
       simp only [hypFB, Bool.and_eq_true] at h
       simp only [HypFB]
       exact ⟨hypFS_sound s h.1, hypFB_sound r h.2⟩
+theorem hypFH_sound : ∀ (hs : List (Nat × List AStmt)), hypFH hs = true → HypFH hs
+  | [], _ => by simp [HypFH]
+  | (t, b) :: r, h => by
+      simp only [hypFH, Bool.and_eq_true] at h
+      simp only [HypFH]
+      exact ⟨hypFB_sound b h.1, hypFH_sound r h.2⟩
 end
 
 /-! ### `annotB` really annotates: erasing the annotation gives the program back -/
@@ -174,8 +245,24 @@ theorem annotS_erase : ∀ (s : Stmt) (a : Ann) (s' : AStmt), annotS a s = some 
   | .raise t, a, s', h => by simp [annotS] at h; subst h; rfl
   | .brk, a, s', h => by simp [annotS] at h
   | .cont, a, s', h => by simp [annotS] at h
-  | .tryS .., a, s', h => by simp [annotS] at h
-  | .withS .., a, s', h => by simp [annotS] at h
+  | .tryS b hs f, a, s', h => by
+      simp only [annotS] at h
+      cases hb : annotB (fun p => a (0 :: p)) 0 b with
+      | none => simp [hb] at h
+      | some b' =>
+        cases hh : annotH a 2 hs with
+        | none => simp [hb, hh] at h
+        | some hs' =>
+          cases hf : annotB (fun p => a (1 :: p)) 0 f with
+          | none => simp [hb, hh, hf] at h
+          | some f' =>
+            simp [hb, hh, hf] at h; subst h
+            simp [eraseS, annotB_erase b _ 0 b' hb, annotH_erase hs a 2 hs' hh, annotB_erase f _ 0 f' hf]
+  | .withS tag b, a, s', h => by
+      simp only [annotS] at h
+      cases hb : annotB (fun p => a (0 :: p)) 0 b with
+      | none => simp [hb] at h
+      | some b' => simp [hb] at h; subst h; simp [eraseS, annotB_erase b _ 0 b' hb]
   | .ifS c t e, a, s', h => by
       simp only [annotS] at h
       cases ht : annotB (fun p => a (0 :: p)) 0 t with
@@ -208,6 +295,87 @@ theorem annotB_erase : ∀ (b : Block) (A : Ann) (k : Nat) (b' : List AStmt), an
         | some r' =>
           simp [hs, hr] at h; subst h
           simp [eraseB, annotS_erase s _ s' hs, annotB_erase r A (k+1) r' hr]
+theorem annotH_erase : ∀ (hs : List (Nat × Block)) (a : Ann) (j : Nat) (hs' : List (Nat × List AStmt)),
+    annotH a j hs = some hs' → eraseH hs' = hs
+  | [], a, j, hs', h => by simp [annotH] at h; subst h; rfl
+  | (t, b) :: r, a, j, hs', h => by
+      simp only [annotH] at h
+      cases hb : annotB (fun p => a (j :: p)) 0 b with
+      | none => simp [hb] at h
+      | some b' =>
+        cases hr : annotH a (j+1) r with
+        | none => simp [hb, hr] at h
+        | some r' =>
+          simp [hb, hr] at h; subst h
+          simp [eraseH, annotB_erase b _ 0 b' hb, annotH_erase r a (j+1) r' hr]
+end
+
+mutual
+/-- `annotB` is total on programs without `break`/`continue` (in particular on every output of the jump passes,
+with or without `try`/`with`). -/
+def noJumpS : Stmt → Bool
+  | .brk => false
+  | .cont => false
+  | .ifS _ t e => noJumpB t && noJumpB e
+  | .whileS _ b => noJumpB b
+  | .forS _ _ _ b => noJumpB b
+  | .withS _ b => noJumpB b
+  | .tryS b hs f => noJumpB b && noJumpH hs && noJumpB f
+  | _ => true
+def noJumpB : List Stmt → Bool
+  | [] => true
+  | s :: r => noJumpS s && noJumpB r
+def noJumpH : List (Nat × List Stmt) → Bool
+  | [] => true
+  | (_, b) :: r => noJumpB b && noJumpH r
+end
+
+mutual
+theorem annotS_total : ∀ (s : Stmt) (a : Ann), noJumpS s = true → ∃ q, annotS a s = some q
+  | .assign x e, a, _ => ⟨_, rfl⟩
+  | .expr e, a, _ => ⟨_, rfl⟩
+  | .pass, a, _ => ⟨_, rfl⟩
+  | .ret e, a, _ => ⟨_, rfl⟩
+  | .raise t, a, _ => ⟨_, rfl⟩
+  | .brk, a, h => by simp [noJumpS] at h
+  | .cont, a, h => by simp [noJumpS] at h
+  | .ifS c t e, a, h => by
+      simp only [noJumpS, Bool.and_eq_true] at h
+      obtain ⟨t', ht⟩ := annotB_total t (fun p => a (0 :: p)) 0 h.1
+      obtain ⟨e', he⟩ := annotB_total e (fun p => a (1 :: p)) 0 h.2
+      exact ⟨.ifS (a []) c t' e', by simp only [annotS, ht, he]⟩
+  | .whileS c b, a, h => by
+      simp only [noJumpS] at h
+      obtain ⟨b', hb'⟩ := annotB_total b (fun p => a (0 :: p)) 0 h
+      exact ⟨.whileS (a []) c b', by simp only [annotS, hb']⟩
+  | .forS x it ex b, a, h => by
+      simp only [noJumpS] at h
+      obtain ⟨b', hb'⟩ := annotB_total b (fun p => a (0 :: p)) 0 h
+      exact ⟨.forS (a []) x it ex b', by simp only [annotS, hb']⟩
+  | .withS tag b, a, h => by
+      simp only [noJumpS] at h
+      obtain ⟨b', hb'⟩ := annotB_total b (fun p => a (0 :: p)) 0 h
+      exact ⟨.withS (a []) tag b', by simp only [annotS, hb']⟩
+  | .tryS b hs f, a, h => by
+      simp only [noJumpS, Bool.and_eq_true] at h
+      obtain ⟨b', hb'⟩ := annotB_total b (fun p => a (0 :: p)) 0 h.1.1
+      obtain ⟨hs', hh'⟩ := annotH_total hs a 2 h.1.2
+      obtain ⟨f', hf'⟩ := annotB_total f (fun p => a (1 :: p)) 0 h.2
+      exact ⟨.tryS (a []) b' hs' f', by simp only [annotS, hb', hh', hf']⟩
+theorem annotB_total : ∀ (b : List Stmt) (A : Ann) (k : Nat), noJumpB b = true → ∃ q, annotB A k b = some q
+  | [], A, k, _ => ⟨[], rfl⟩
+  | s :: rest, A, k, h => by
+      simp only [noJumpB, Bool.and_eq_true] at h
+      obtain ⟨s', hs'⟩ := annotS_total s (fun p => A (k :: p)) h.1
+      obtain ⟨r', hr'⟩ := annotB_total rest A (k + 1) h.2
+      exact ⟨s' :: r', by simp only [annotB, hs', hr']⟩
+theorem annotH_total : ∀ (hs : List (Nat × List Stmt)) (a : Ann) (j : Nat), noJumpH hs = true → ∃ q, annotH a j hs = some q
+  | [], a, j, _ => ⟨[], rfl⟩
+  | (t, b) :: r, a, j, h => by
+      simp only [noJumpH, Bool.and_eq_true] at h
+      obtain ⟨b', hb'⟩ := annotB_total b (fun p => a (j :: p)) 0 h.1
+      obtain ⟨r', hr'⟩ := annotH_total r a (j + 1) h.2
+      exact ⟨(t, b') :: r', by simp only [annotH, hb', hr']⟩
 end
 
 end Malt.Func
